@@ -1255,3 +1255,40 @@ def _every_iteration(self, rule, body, source_pred, sink, descr, what):
 
 
 Run.every_iteration = _every_iteration
+
+
+def _whole_file_write(self, rule, fn, descr):
+    """The function replaces its file whole on every write: fs::write / File::create, or OpenOptions with truncate(true) /
+    create_new(true).  An OpenOptions chain that writes without truncating leaves the tail of a longer previous version."""
+    from flow import backward_calls
+    F = self.F
+    n, ok = 0, True
+    for b in F.item(fn):
+        prep(b)
+        for blk in b.blocks:
+            t = blk["term"]
+            if t["k"] != "call" or blk["cleanup"]:
+                continue
+            nc = t["ncallee"] or ""
+            if nc in ("std::fs::write", "std::fs::File::create", "std::fs::File::create_new"):
+                n += 1
+            elif nc == "std::fs::OpenOptions::open":
+                locs, calls = backward_calls(b, op_local(t["args"][0]))
+                names = {}
+                for c in calls:
+                    cn = (c["ncallee"] or "").split("::")[-1]
+                    names[cn] = c["args"][1][1] if len(c["args"]) > 1 and c["args"][1][0] == "c" else None
+                writes = names.get("write") == "true" or names.get("append") == "true"
+                if writes:
+                    n += 1
+                    if not (names.get("truncate") == "true" or names.get("create_new") == "true"):
+                        ok = False
+                        self.viol(rule, "no-truncate:%s" % fn.split("::")[-1], "%s opens its file for writing without truncate(true): saving a shorter state after a longer one leaves a stale tail that no longer parses" % fn, b, t["l"])
+    if n < 1:
+        ok = False
+        self.viol(rule, "writer-missing:%s" % fn.split("::")[-1], "no file-writing call found in %s" % fn)
+    self.inst(rule, "K1 forbidden-callee", descr, n, ok)
+    return ok
+
+
+Run.whole_file_write = _whole_file_write
